@@ -209,6 +209,32 @@ def manifestStateAt (ia : Identity) (claim : List HUri) (base : C04.Results)
     (uri : Option (List Char)) : C04.State :=
   C04.state (manifestResultsAt ia claim base uri)
 
+/-! #### several identity assertions in one pass (one status tracker)
+
+`Reader::post_validate` creates one tracker and `walk_manifest` hands it to the validator for every
+identity assertion of the active manifest and then of every ingredient manifest;
+`Manifest::from_store` uses the store's validation log. `validate_partial_claim` only *appends* to
+the tracker it is given: nothing it logs, and nothing it decides, depends on what is already there. -/
+
+/-- one assertion validated on a tracker that already holds `tr` -/
+def validateIn (tr : List Entry) (ia : Identity) (claim : List HUri) : Bool × List Entry :=
+  ((validate ia claim).1, tr ++ (validate ia claim).2)
+
+/-- the tracker threaded through a pass -/
+def validateThreaded : List Entry → List (Identity × List HUri) → List Entry
+  | tr, [] => tr
+  | tr, x :: xs => validateThreaded (validateIn tr x.1 x.2).2 xs
+
+/-- what each assertion of the pass contributes (result and the slice of the tracker it wrote) -/
+def passSlices (xs : List (Identity × List HUri)) : List (Bool × List Entry) :=
+  xs.map fun x => validate x.1 x.2
+
+/-- `Reader::post_validate` over a pass: the slices, each with the ingredient URI that was on the
+tracker's stack, are added to the results in tracker order. -/
+def postValidateMany (base : C04.Results)
+    (xs : List (Option (List Char) × Identity × List HUri)) : C04.Results :=
+  xs.foldl (fun r x => postValidate r x.1 (validate x.2.1 x.2.2).2) base
+
 /-! ### line protocol -/
 
 def parseHex (s : String) : List Nat := ((fromHex? s).getD []).map UInt8.toNat
@@ -298,6 +324,11 @@ def baseStr (r : C04.Results) : String :=
     | some ds => "|".intercalate (ds.map fun d => String.ofList d.uri ++ "~" ++ C04.scStr d.codes)
   "A=" ++ a ++ " D=" ++ d
 
+/-- the tokens `i.key=value` of assertion `i`, prefix removed -/
+def sub (toks : List String) (i : Nat) : List String :=
+  let pre := toString i ++ "."
+  toks.filterMap fun t => if pre.isPrefixOf t then some ((t.drop pre.length).toString) else none
+
 def handle (toks : List String) : String :=
   match toks with
   | "vpc" :: rest =>
@@ -318,6 +349,24 @@ def handle (toks : List String) : String :=
     let claim := parseUris (field rest "claim")
     let u := field rest "iuri"
     let r := manifestResultsAt ia claim (parseBase rest) (if u == "-" then none else some u.toList)
+    (C04.state r).str ++ " " ++ baseStr r
+  | "seq" :: rest =>
+    -- `n` assertions (fields prefixed `0.`, `1.`, …) validated one after the other on ONE tracker;
+    -- the reply lists, per assertion, the result and the slice of the tracker it wrote
+    let n := (field rest "n").toNat?.getD 0
+    let subs := (List.range n).map (sub rest)
+    if !subs.all requestOk then "bad-input" else
+    " / ".intercalate ((passSlices (subs.map fun t => (parseIdentity t, parseUris (field t "claim")))).map
+      fun o => (if o.1 then "ok" else "err") ++ " log=" ++ logStr o.2)
+  | "e2em" :: rest =>
+    -- a pass of `post_validate_async(&CawgValidator)` over `n` identity assertions in different
+    -- manifests (`i.iuri`), on top of the results `A=`/`D=`
+    let n := (field rest "n").toNat?.getD 0
+    let subs := (List.range n).map (sub rest)
+    if !subs.all requestOk then "bad-input" else
+    let r := postValidateMany (parseBase rest) (subs.map fun t =>
+      let u := field t "iuri"
+      (if u == "-" then none else some u.toList, parseIdentity t, parseUris (field t "claim")))
     (C04.state r).str ++ " " ++ baseStr r
   | "strip" :: rest => String.ofList (stripAbs (field rest "u").toList)
   | "remap" :: rest => String.ofList (remap (field rest "c").toList)
